@@ -733,6 +733,9 @@ func (s String) Split(args Tuple, kwargs StringDict) (Object, error) {
 	)
 	switch v := pyval.(type) {
 	case String:
+		if v == "" {
+			return nil, ExceptionNewf(ValueError, "empty separator")
+		}
 		// a negative maxsplit (the default) means no limit
 		n := -1
 		if max >= 0 {
